@@ -44,6 +44,13 @@ var names = []string{"/", "/a", "/a/b", "/b", "/a/32=b", "/localhost/x"}
 func genCase(t *rapid.T) Case {
 	c := Case{LifeMs: rapid.SampledFrom([]int64{100, 250, 1000, 6000}).Draw(t, "life")}
 	n := rapid.IntRange(1, 40).Draw(t, "nops")
+	if rapid.IntRange(0, 99).Draw(t, "flood") == 0 {
+		n = rapid.IntRange(1, 6).Draw(t, "floodOps")
+		// one (short) history in a hundred begins with a flood: more records alive at once than any bound an
+		// implementation may put on the list (the property knows no bound: a record stays for its
+		// lifetime and goes after it; seeded C08-r9-2 capped the list at 65536 and leaked what it pushed out)
+		c.Ops = append(c.Ops, Op{K: "ins", Name: 1, Nonce: 7000, Count: rapid.SampledFrom([]int{1025, 5000, 65537, 70000}).Draw(t, "floodCount")})
+	}
 	for i := 0; i < n; i++ {
 		switch k := rapid.IntRange(0, 9).Draw(t, "kind"); {
 		case k < 4:
@@ -153,8 +160,10 @@ func run(c Case) (res evid.Result) {
 		return
 	}
 	tick := func() {
-		if _, lapsed := counts(); lapsed > 100 {
-			cls["more-lapsed-records-than-one-reaper-batch"] = true
+		if len(recs) <= 2000 { // (a statistic only; not worth a pass over 70000 records per tick)
+			if _, lapsed := counts(); lapsed > 100 {
+				cls["more-lapsed-records-than-one-reaper-batch"] = true
+			}
 		}
 		d.RemoveExpiredEntries()
 	}
@@ -278,7 +287,7 @@ func exec(t *testing.T) func(Case) evid.Result {
 	}
 }
 
-const rule = "histories of up to 40 operations on a real table.DeadNonceList under virtual time: record 1..330 (name, nonce) pairs at once (bursts around the reaper's batch of 100), look a pair up, let 1 ms..2 lifetimes pass with the reaper called at every 100 ms tick as the forwarding thread does (or, the thread being busy, once at the end); lifetimes 100/250/1000/6000 ms. Reference written from the two clauses: a pair must be found (and Insert must report it present) for its lifetime from the recording that created the record in force (C02); a pair never recorded, or seen to be gone, must not be found; how soon a lapsed record is reaped, in what batches, and whether re-recording renews a lifetime are left free; the list size must lie between the live records and live + lapsed; after every lifetime plus a generous number of reaper passes the list and its expiry queue must be empty (C08). Non-trivial: >= 2 records made and >= 1 record lapsed while the history ran; distinct by case hash"
+const rule = "histories of up to 40 operations on a real table.DeadNonceList under virtual time: record 1..330 (name, nonce) pairs at once (bursts around the reaper's batch of 100; one short history in a hundred begins with a flood of 1025..70000 records), look a pair up, let 1 ms..2 lifetimes pass with the reaper called at every 100 ms tick as the forwarding thread does (or, the thread being busy, once at the end); lifetimes 100/250/1000/6000 ms. Reference written from the two clauses: a pair must be found (and Insert must report it present) for its lifetime from the recording that created the record in force (C02); a pair never recorded, or seen to be gone, must not be found; how soon a lapsed record is reaped, in what batches, and whether re-recording renews a lifetime are left free; the list size must lie between the live records and live + lapsed; after every lifetime plus a generous number of reaper passes the list and its expiry queue must be empty (C08). Non-trivial: >= 2 records made and >= 1 record lapsed while the history ran; distinct by case hash"
 
 func TestC08DeadNonce(t *testing.T) {
 	rec := evid.New("C08", "TestC08DeadNonce", rule)
